@@ -33,17 +33,17 @@ func (execEngine) Name() string { return "exec" }
 func (execEngine) Reset()       {}
 
 type execCase struct {
-	par    int
-	req    []string
-	sched  uint64
-	graph  map[string][]string
-	order  []string
-	faults map[string]string
-	sfx    string
+	par     int
+	req     []string
+	sched   uint64
+	graph   map[string][]string
+	order   []string
+	faults  map[string]string
+	sfx     string
 	syncRes bool // the resolver calls of the requested files rendezvous (tasks start linking together)
 	parZero bool // pass MaxParallelism 0 (the compiler's default) — `par` then states the effective value
-	cancel int // cancel the context after this many resolver calls (<0: never)
-	abort  int // reporter aborts at k-th error (<0: never; -2: nil reporter)
+	cancel  int  // cancel the context after this many resolver calls (<0: never)
+	abort   int  // reporter aborts at k-th error (<0: never; -2: nil reporter)
 }
 
 func parseExecCase(op string) (*execCase, bool) {
@@ -423,6 +423,87 @@ func execDpPlain(op string) string {
 	return "ok"
 }
 
+// execDpBroken: the resolver overrides descriptor.proto with a source that has a syntax error; the
+// requested files are valid and do not import it, so it is compiled only as their implicit
+// dependency and its failure is ignored by the importers — but its errors reach the configured
+// reporter, and the reporter contract (C08) speaks about every error the reporter was handed:
+// accept-all => Compile fails with ErrInvalidSource; abort => Compile fails with the reporter's
+// error. Answer: res=<nil|invalid-source|reporter-error|other:…> reported=<none|some>.
+func execDpBroken(op string) string {
+	w := strings.Fields(op)
+	par, abort := 1, false
+	var req []string
+	for _, kv := range w[1:] {
+		key, v, _ := strings.Cut(kv, "=")
+		switch key {
+		case "par":
+			par, _ = strconv.Atoi(v)
+		case "rep":
+			abort = v == "abort"
+			if v != "abort" && v != "accept" {
+				return "bad-op"
+			}
+		case "req":
+			for _, r := range strings.Split(v, ",") {
+				req = append(req, r+".proto")
+			}
+		default:
+			return "bad-op"
+		}
+	}
+	if len(req) == 0 {
+		return "bad-op"
+	}
+	dp, err := os.ReadFile(execRepoFile("wellknownimports/google/protobuf/descriptor.proto"))
+	if err != nil {
+		return "bad-op descriptor.proto not found: " + err.Error()
+	}
+	srcs := map[string]string{
+		"google/protobuf/descriptor.proto": string(dp) + "\nmessage Broken { int32 = ; }\n",
+		"leaf0.proto":                      "syntax = \"proto3\";\nmessage L0 { int32 f = 1; }\n",
+		"leaf1.proto":                      "syntax = \"proto3\";\nmessage L1 { int32 f = 1; }\n",
+		"top.proto":                        "syntax = \"proto3\";\nimport \"leaf0.proto\";\nimport \"leaf1.proto\";\nmessage Top { L0 a = 1; L1 b = 2; }\n",
+	}
+	stop := errors.New("reporter-says-stop")
+	var mu sync.Mutex
+	reported := 0
+	rep := reporter.NewReporter(func(e reporter.ErrorWithPos) error {
+		mu.Lock()
+		reported++
+		mu.Unlock()
+		if abort {
+			return stop
+		}
+		return nil
+	}, nil)
+	comp := protocompile.Compiler{
+		Resolver:       &protocompile.SourceResolver{Accessor: protocompile.SourceAccessorFromMap(srcs)},
+		MaxParallelism: par,
+		Reporter:       rep,
+	}
+	ctx, cancel := context.WithTimeout(context.Background(), 10*time.Second)
+	defer cancel()
+	_, err = comp.Compile(ctx, req...)
+	res := ""
+	switch {
+	case err == nil:
+		res = "nil"
+	case errors.Is(err, context.DeadlineExceeded):
+		return "hang"
+	case errors.Is(err, stop):
+		res = "reporter-error"
+	case errors.Is(err, reporter.ErrInvalidSource):
+		res = "invalid-source"
+	default:
+		res = "other:" + Canon(err.Error())
+	}
+	n := "none"
+	if reported > 0 {
+		n = "some"
+	}
+	return fmt.Sprintf("res=%s reported=%s", res, n)
+}
+
 // execRepoFile locates a file of the repository under test (the harness module replaces the
 // protocompile module by a directory).
 func execRepoFile(rel string) string {
@@ -439,6 +520,9 @@ func (execEngine) Exec(op string) string {
 	}
 	if strings.HasPrefix(op, "dpplain") {
 		return execDpPlain(op)
+	}
+	if strings.HasPrefix(op, "dpbroken") {
+		return execDpBroken(op)
 	}
 	c, ok := parseExecCase(op)
 	if !ok {
@@ -739,6 +823,15 @@ func (execEngine) Gen(r *Rand, tier string) [][]string {
 	add("dpcompile par=2 req=x")
 	add("dpcompile par=4 req=dp,x")
 	add("dpcompile par=1 req=dp,x")
+	// (1i) a custom descriptor.proto with a syntax error, compiled only as an implicit dependency:
+	// the reporter contract covers its errors too
+	for _, par := range []int{1, 2, 8} {
+		for _, rp := range []string{"accept", "abort"} {
+			for _, rq := range []string{"leaf0", "top", "leaf1,top"} {
+				add(fmt.Sprintf("dpbroken par=%d rep=%s req=%s", par, rp, rq))
+			}
+		}
+	}
 	// (1h) a custom descriptor.proto that imports nothing: must compile at every parallelism,
 	// request order and schedule
 	dpreps := 6
